@@ -349,5 +349,37 @@ def r19_6(ctx):
     return r
 
 
+def r19_7(ctx):
+    """a receiver may own several SSRCs (primary and RTX, or a second one learnt from a RID / MID hit). Binding one
+    more SSRC to it must leave its other bindings alone: the only entries bind_ssrc_route may drop are those whose
+    receiver is gone (closed channel). A 'tidy-up' that also drops entries pointing at the same channel makes the
+    older SSRC fall through to the unique-PT / provisional fallback - which can be the receiver of another section."""
+    r = RuleResult("R19.7", "K3", "bind_ssrc_route prunes closed receivers only")
+    fn = "transports::rtp::ListenerRegistry::bind_ssrc_route"
+    b = ctx.body(fn)
+    r.scope.append(fn)
+    n = 0
+    for bi, t, p in b.calls():
+        if not p or not p.endswith("::retain") or not t["a"] or not mir.has_field(b.term_operand(t["a"][0]), "by_ssrc"):
+            continue
+        n += 1
+        cl = b.term_operand(t["a"][1])
+        if cl[0] != "closure" or not ctx.facts.has_body(cl[1]):
+            raise core.CheckerError("R19.7: retain predicate is not a closure with a body")
+        cb = ctx.facts.body(cl[1])
+        other = [pp for _, _, pp in cb.calls() if pp and not pp.endswith(("Sender::<T>::is_closed", "::deref", "::not"))]
+        if other:
+            r.violate(fn, "prune:not-only-closed", b.where(bi),
+                      "the SSRC table is pruned by a predicate that also calls %s: live bindings of the same receiver are dropped" %
+                      ", ".join(sorted(set(x.split("::")[-1] for x in other))))
+        else:
+            r.ok({"site": b.where(bi), "prunes": "entries whose channel is closed"})
+    for bi, t, p in b.calls():
+        if p and p.endswith(("::clear", "::remove", "::drain")) and t["a"] and mir.has_field(b.term_operand(t["a"][0]), "by_ssrc"):
+            r.violate(fn, "prune:other", b.where(bi), "bind_ssrc_route removes SSRC bindings other than those of closed receivers")
+    r.need("retain calls on by_ssrc in bind_ssrc_route", n, 1)
+    return r
+
+
 def run(ctx):
-    return [r19_1(ctx), r19_2(ctx), r19_3(ctx), r19_4(ctx), r19_5(ctx), r19_6(ctx)]
+    return [r19_1(ctx), r19_2(ctx), r19_3(ctx), r19_4(ctx), r19_5(ctx), r19_6(ctx), r19_7(ctx)]
